@@ -4,7 +4,7 @@ Local Open Scope N_scope.
 
 (* For every store and poll: tokens only if the auth_req_id indexes a stored session of the
    authenticated (initiating) client, unexpired, the embedder's validation APPROVED in this very
-   request, the client is not a push client; the session is then deleted. *)
+   request (plainly, or fixing a narrower grant at that moment: ba_approves), the client is not a push client; the session is then deleted. *)
 Theorem ciba_poll_bound : forall w n now r st,
   is_tokens (snd (run_seq (ciba_grant w n now r) st)) = true ->
   exists s c,
@@ -14,7 +14,7 @@ Theorem ciba_poll_bound : forall w n now r st,
     snd (run_seq (authenticated w (t_cred r)) st) = Some c /\
     a_client s = c_id c /\
     geb now (a_expires s) = false /\
-    t_ba r = BaApprove /\
+    ba_approves (t_ba r) = true /\
     c_ciba_mode c <> CibaPush.
 Proof. exact ciba_grant_post. Qed.
 Print Assumptions ciba_poll_bound.
